@@ -46,7 +46,10 @@ def gen_case(rng, tier):
         gene = {"kind": "shipped", "name": rng.choice(cfg["shipped"]), "genome": "hg19"}
     return {"gene": gene, "seed": rng.randint(0, 10**9), "gap": rng.choice([0, 0, 0.1, 0.3]),
             "max_cn": rng.choice([3, 4, 4, 5, 6]), "noise": rng.choice([0.0, 0.1, 0.3, 0.5]),
-            "fusion_support": rng.random() < 0.3}
+            "fusion_support": rng.random() < 0.3,
+            # as many gene copies as the model has room for at this maximum copy number (two complete
+            # configurations + max_cn - 1 extra copies), optionally with surplus pseudogene copies on top
+            "tight": rng.choice([None, None, None, None, None, None, "copies", "copies+pseudo"])}
 
 
 def gen_plan(rng, tier, i, seed):
@@ -289,6 +292,9 @@ def run_case(case, seg, viol, stats, sample):
     cn = SL.random_cn(rng, gene, 4)
     if gene.deletion_allele() and rng.random() < 0.2:
         cn = cn[:1]  # one copy + implicit deletion
+    if case.get("tight"):
+        max_cn = rng.choice([3, 3, 4])
+        cn = ["1"] * (max_cn + 1)
     rc = {}
     for r in gene.unique_regions:
         g = sum(gene.cn_configs[c].cn[0].get(r, 0) for c in cn)
@@ -299,9 +305,11 @@ def run_case(case, seg, viol, stats, sample):
                 p += gene.cn_configs[c].cn[1].get(r, 0) - (1 if (i >= 2 and c == "1") else 0)
             if len(cn) == 1 and gene.deletion_allele():
                 p += gene.cn_configs[gene.deletion_allele()].cn[1].get(r, 0)
+        if case.get("tight") == "copies+pseudo":
+            p += 1.0
         rc[r] = (round(max(0.0, g + rng.uniform(-case["noise"], case["noise"])), 2),
                  round(max(0.0, p + rng.uniform(-case["noise"], case["noise"])), 2) if len(gene.regions) > 1 else 0.0)
-    if len(gene.regions) > 1 and gene.deletion_allele() and rng.random() < 0.15:
+    if len(gene.regions) > 1 and gene.deletion_allele() and rng.random() < 0.15 and not case.get("tight"):
         # hardly any gene depth, pseudogene depth of two or more copies: only whole-gene deletions (and
         # extra pseudogene copies) can explain it
         k = rng.choice([2.0, 2.5, 3.0, 3.5, 4.0])
